@@ -58,3 +58,36 @@ Theorem C08_checked_runs_are_instances : forall sp sources fuel, fst (Conservati
   let st := snd (Conservation.run_ok fuel sp (sm_init sources)) in s_done st ++ StreamProofs.unread st = concat sources.
 Proof. exact Conservation.run_conserved. Qed.
 Print Assumptions C08_checked_runs_are_instances.
+
+(** ** yyunput on the buffer as addresses (coq/Unput.v) *)
+Require FlexV.Unput.
+
+(** the descending copy that makes room is right although source and destination overlap *)
+Theorem C08_unput_overlapping_move_is_right : forall n m dst src i, (src <= dst)%nat -> (n <= src)%nat -> (dst <= length m)%nat -> (i < n)%nat ->
+  nth (dst - 1 - i) (FlexV.Unput.copy_bwd m dst src n) FlexV.BufLayout.EOB = nth (src - 1 - i) m FlexV.BufLayout.EOB.
+Proof. exact FlexV.Unput.copy_bwd_spec. Qed.
+Print Assumptions C08_unput_overlapping_move_is_right.
+
+(** a successful yyunput(c) makes c the next unread byte in front of the former unread bytes and keeps the buffer well formed *)
+Theorem C08_unput_pushes_in_front : forall b c b', FlexV.Unput.UInv b -> FlexV.Unput.unput b c = Some b' ->
+  FlexV.Unput.UInv b' /\ FlexV.Unput.u_unread b' = c :: FlexV.Unput.u_unread b /\ FlexV.Unput.u_size b' = FlexV.Unput.u_size b.
+Proof. exact FlexV.Unput.unput_unread. Qed.
+Print Assumptions C08_unput_pushes_in_front.
+
+(** "push-back overflow" exactly when fewer than two bytes would stay free in front of the unread text *)
+Theorem C08_unput_overflow_exact : forall b c, FlexV.Unput.UInv b ->
+  (FlexV.Unput.unput b c = None <-> (FlexV.Unput.u_size b + FlexV.Unput.u_cp b < FlexV.Unput.u_nch b + 2)%nat).
+Proof. exact FlexV.Unput.unput_overflow_iff. Qed.
+Print Assumptions C08_unput_overflow_exact.
+
+(** every store of yyunput lies inside the buf_size + 2 bytes of the buffer *)
+Theorem C08_unput_stays_inside : forall b c b', FlexV.Unput.UInv b -> FlexV.Unput.unput b c = Some b' ->
+  length (FlexV.Unput.u_mem b') = (FlexV.Unput.u_size b + 2)%nat /\ (FlexV.Unput.u_cp b' < FlexV.Unput.u_size b + 2)%nat.
+Proof. exact FlexV.Unput.unput_writes_inside. Qed.
+Print Assumptions C08_unput_stays_inside.
+
+(** any run of unputs: afterwards the unread bytes are the pushed ones, last pushed first, then the former ones *)
+Theorem C08_unputs_then_rescanned : forall cs b b', FlexV.Unput.UInv b -> FlexV.Unput.unputs b cs = Some b' ->
+  FlexV.Unput.UInv b' /\ FlexV.Unput.u_unread b' = rev cs ++ FlexV.Unput.u_unread b.
+Proof. exact FlexV.Unput.unputs_unread. Qed.
+Print Assumptions C08_unputs_then_rescanned.
